@@ -73,6 +73,10 @@ def indexC {α} (s : List α) (i : Int) : Res α :=
     | none => .panic "index out of range"
   else .panic "index out of range"
 
+/-- Go `s[i]` where only the length of `s` matters: `i` is inside a slice of `len` elements -/
+def boundC (i len : Int) : Res Unit :=
+  if 0 ≤ i ∧ i < len then .ok () else .panic "index out of range"
+
 /-- largest allocation the Go runtime accepts on linux/amd64 (`maxAlloc`, 2^48): above it `make` panics -/
 def maxAlloc : Int := 281474976710656
 /-- memory the process can actually get (the harness child runs under a 4 GiB address-space limit) -/
